@@ -616,4 +616,31 @@ class UpdateArrayAttribute(Contract):
         ctx.oblige("other-labels-untouched", obj.fields["_index"].items["other"] is e["other"][0] and obj.fields["_data"].items["other"] is e["other"][1], kind="frame")
 
 
+class KfRemoveThroughWorkspace(Contract):
+    """Replays the recorded witness of KF-C05-2."""
+    target = "geoh5py/shared/concatenation/concatenator.py::Concatenator.update_array_attribute"
+    variant = "kf-remove-through-workspace"
+    symbolic = False
+    has_native = True
+    props = ("C05",)
+
+    def native_cases(self, tier, rng):
+        return []
+
+    def native_check(self, case):
+        from geoh5py.groups import DrillholeGroup
+        from geoh5py.objects import Drillhole
+        from geoh5py.workspace import Workspace
+
+        with Workspace() as ws:
+            g = DrillholeGroup.create(ws, name="DH")
+            h = Drillhole.create(ws, name="H0", parent=g, collar=np.r_[0.0, 0.0, 0.0], surveys=np.c_[np.r_[0.0, 10.0], np.zeros(2), -90 * np.ones(2)])
+            h.add_data({"Au": {"depth": np.array([1.0, 2.0, 3.0]), "values": np.arange(3.0)}, "Cu": {"depth": np.array([1.0, 2.0, 3.0]), "values": np.arange(3.0)}})
+            ws.remove_entity(h.get_data("Cu")[0])
+            left = [c.name for c in h.children]
+            if "Cu" in left:
+                return f"hole.children still lists the removed data set: {left}"
+        return None
+
+
 CONTRACTS = [ConcatHistories, DeleteIndexData, FetchIndex, FetchValues, FetchStartIndex, UpdateArrayAttribute]
